@@ -834,6 +834,12 @@ func (proxy *PgProxy) ProxyDatabaseConnection(ctx context.Context, errCh chan<- 
 					errCh <- base.NewDBProxyError(err)
 					return
 				}
+			} else if err := proxy.protocolState.HandleDatabasePacket(packetHandler); err != nil {
+				// The skipped packets are not forwarded, but the protocol observer still has to see them:
+				// CommandComplete/ErrorResponse of the failed statement removes its pending query. Otherwise
+				// the rows of all following statements would be processed with the settings of the failed one.
+				errCh <- base.NewDBProxyError(err)
+				return
 			}
 			logger.WithField("last", last).Debugln("Skipping the packet")
 		}
